@@ -315,6 +315,8 @@ func rulesC11(e *Engine, r *Report) {
 	// ---------------------------------------------------------------- R11.9
 	r.Rule("R11.9", "the ranges a resumed file is cut into lie inside the file: they are derived from a partial of the same hash, hence of the same size (same check as R07.11; a partial of an older, longer version gave a 300-byte file the range 100-500)")
 	checkResumeSameVersion(e, r, "R11.9")
+	// ---------------------------------------------------------------- R11.10
+	e.shareRule(r, "C08", "R08.11", "R11.10", "what is sent again after a failure is exactly the parts the receiver lacks: the split point is the count the receiver reported - through the failed request or the recovery request - and only the split-off tail returns to the sender")
 }
 
 // checkRecoverAllocate: the allocator of a resumed file hands out exactly its
